@@ -2,7 +2,6 @@ package smt
 
 import (
 	"fmt"
-	"sort"
 )
 
 // Quantifier elimination by skolemisation and generator-side instantiation.
@@ -12,28 +11,30 @@ import (
 // proves "unsat" of the input), in which every top-level existential has been
 // replaced by a fresh constant and every positive universal by a finite set of
 // instances chosen by matching `select` index terms and function arguments
-// modulo bit-vector addition.
+// modulo bit-vector addition. A select trigger only fires on ground selects of
+// arrays that may denote the same array (same term, or related through store /
+// ite / heap-read chains).
 
 type Inst struct {
 	Fresh     func(prefix string, s *Sort) *Term
 	Rounds    int
 	MaxPerQ   int
 	KeepQuant bool // keep the quantified formula next to its instances
+	NoInst    bool // skolemise only, drop every universal hypothesis
 	Stats     struct{ Skolems, Universals, Instances int }
 }
 
 func (in *Inst) Prepare(asserts []*Term) []*Term {
-	if in.Rounds == 0 {
-		in.Rounds = 3
+	if in.Rounds == 0 && !in.NoInst {
+		in.Rounds = 4
 	}
 	if in.MaxPerQ == 0 {
-		in.MaxPerQ = 600
+		in.MaxPerQ = 400
 	}
 	var cur []*Term
 	for _, a := range asserts {
 		cur = append(cur, in.nnf(a, true, false))
 	}
-	// flatten conjunctions
 	var flat []*Term
 	var fl func(t *Term)
 	fl = func(t *Term) {
@@ -60,7 +61,6 @@ func (in *Inst) Prepare(asserts []*Term) []*Term {
 		for _, c := range cur {
 			next = append(next, in.expand(c, g, done, &changed))
 		}
-		// flatten again
 		flat = nil
 		for _, c := range next {
 			fl(c)
@@ -77,7 +77,16 @@ func (in *Inst) Prepare(asserts []*Term) []*Term {
 		}
 		cur = out
 	}
-	return cur
+	// dedupe
+	seen := map[*Term]bool{}
+	var out []*Term
+	for _, c := range cur {
+		if !seen[c] && !c.IsTrue() {
+			seen[c] = true
+			out = append(out, c)
+		}
+	}
+	return out
 }
 
 // nnf pushes negations to atoms; pos is the polarity; underForall tells
@@ -146,7 +155,6 @@ func (in *Inst) nnf(t *Term, pos bool, underForall bool) *Term {
 }
 
 func mkQ(op string, vars []*Term, body *Term) *Term {
-	// merge nested same-kind quantifiers
 	if body.Op == op {
 		return quant(op, append(append([]*Term{}, vars...), body.Bound...), body.Args[0])
 	}
@@ -154,27 +162,75 @@ func mkQ(op string, vars []*Term, body *Term) *Term {
 }
 
 type ground struct {
-	idx  map[string][]*Term            // sort name -> closed index terms of selects
-	args map[string]map[int][]*Term    // function name -> arg position -> closed args
-	all  map[string][]*Term            // sort name -> skolem/other constants of that sort seen as indices or args
-	seen map[string]map[string]bool    // dedupe by printed form
+	idx     map[*Term][]*Term         // base array -> closed index terms used on it
+	idxSeen map[*Term]map[*Term]bool
+	args    map[string]map[int][]*Term // function name -> arg position -> closed args
+	argSeen map[string]map[*Term]bool
+	skolems map[string][]*Term // sort name -> skolem constants
+	bases   map[*Term][]*Term
+}
+
+// basesOf: the arrays a (closed) array-valued term may be equal to or derived from.
+func (g *ground) basesOf(t *Term) []*Term {
+	if b, ok := g.bases[t]; ok {
+		return b
+	}
+	g.bases[t] = []*Term{t} // cycle guard
+	set := map[*Term]bool{t: true}
+	out := []*Term{t}
+	add := func(ts []*Term) {
+		for _, x := range ts {
+			if !set[x] {
+				set[x] = true
+				out = append(out, x)
+			}
+		}
+	}
+	switch t.Op {
+	case "store":
+		add(g.basesOf(t.Args[0]))
+	case "ite":
+		add(g.basesOf(t.Args[1]))
+		add(g.basesOf(t.Args[2]))
+	case "select":
+		// heap read: select(store(store(H, r1, a1), r2, a2), r)
+		h, r := t.Args[0], t.Args[1]
+		for h.Op == "store" {
+			if !(h.Args[1].IsLit() && r.IsLit() && h.Args[1] != r) {
+				add(g.basesOf(h.Args[2]))
+			}
+			h = h.Args[0]
+		}
+		if h.Op == "ite" {
+			add(g.basesOf(Select(h.Args[1], r)))
+			add(g.basesOf(Select(h.Args[2], r)))
+		} else {
+			add([]*Term{Select(h, r)})
+		}
+	}
+	g.bases[t] = out
+	return out
 }
 
 func collectGround(ts []*Term) *ground {
-	g := &ground{idx: map[string][]*Term{}, args: map[string]map[int][]*Term{}, all: map[string][]*Term{}, seen: map[string]map[string]bool{}}
-	add := func(bucket map[string][]*Term, key string, t *Term) {
-		k := "b:" + key
-		if g.seen[k] == nil {
-			g.seen[k] = map[string]bool{}
-		}
-		s := t.String()
-		if g.seen[k][s] {
+	g := &ground{idx: map[*Term][]*Term{}, idxSeen: map[*Term]map[*Term]bool{}, args: map[string]map[int][]*Term{},
+		argSeen: map[string]map[*Term]bool{}, skolems: map[string][]*Term{}, bases: map[*Term][]*Term{}}
+	addIdx := func(arr, i *Term) {
+		if !arr.Closed() || !i.Closed() {
 			return
 		}
-		g.seen[k][s] = true
-		bucket[key] = append(bucket[key], t)
+		for _, b := range g.basesOf(arr) {
+			if g.idxSeen[b] == nil {
+				g.idxSeen[b] = map[*Term]bool{}
+			}
+			if !g.idxSeen[b][i] {
+				g.idxSeen[b][i] = true
+				g.idx[b] = append(g.idx[b], i)
+			}
+		}
 	}
 	visited := map[*Term]bool{}
+	skSeen := map[*Term]bool{}
 	var walk func(t *Term)
 	walk = func(t *Term) {
 		if visited[t] {
@@ -183,12 +239,12 @@ func collectGround(ts []*Term) *ground {
 		visited[t] = true
 		switch t.Op {
 		case "select":
-			if t.Args[1].Closed() {
-				add(g.idx, t.Args[1].Sort.Name, t.Args[1])
+			if t.Args[1].Sort.Kind == KBV {
+				addIdx(t.Args[0], t.Args[1])
 			}
 		case "store":
-			if t.Args[1].Closed() {
-				add(g.idx, t.Args[1].Sort.Name, t.Args[1])
+			if t.Args[1].Sort.Kind == KBV {
+				addIdx(t, t.Args[1])
 			}
 		case "app":
 			for i, a := range t.Args {
@@ -196,20 +252,20 @@ func collectGround(ts []*Term) *ground {
 					if g.args[t.Name] == nil {
 						g.args[t.Name] = map[int][]*Term{}
 					}
-					k := fmt.Sprintf("f:%s:%d", t.Name, i)
-					if g.seen[k] == nil {
-						g.seen[k] = map[string]bool{}
+					k := fmt.Sprintf("%s:%d", t.Name, i)
+					if g.argSeen[k] == nil {
+						g.argSeen[k] = map[*Term]bool{}
 					}
-					s := a.String()
-					if !g.seen[k][s] {
-						g.seen[k][s] = true
+					if !g.argSeen[k][a] {
+						g.argSeen[k][a] = true
 						g.args[t.Name][i] = append(g.args[t.Name][i], a)
 					}
 				}
 			}
 		case "const":
-			if len(t.Name) > 3 && t.Name[:3] == "sk_" {
-				add(g.all, t.Sort.Name, t)
+			if len(t.Name) > 3 && t.Name[:3] == "sk_" && !skSeen[t] {
+				skSeen[t] = true
+				g.skolems[t.Sort.Name] = append(g.skolems[t.Sort.Name], t)
 			}
 		}
 		for _, a := range t.Args {
@@ -296,11 +352,10 @@ func decompose(e *Term, v string) (c *Term, ok bool) {
 
 func (in *Inst) candidates(q *Term, v *Term, g *ground) []*Term {
 	var out []*Term
-	seen := map[string]bool{}
+	seen := map[*Term]bool{}
 	add := func(t *Term) {
-		s := t.String()
-		if !seen[s] {
-			seen[s] = true
+		if !seen[t] {
+			seen[t] = true
 			out = append(out, t)
 		}
 	}
@@ -314,19 +369,27 @@ func (in *Inst) candidates(q *Term, v *Term, g *ground) []*Term {
 		visited[t] = true
 		switch t.Op {
 		case "select":
-			if c, ok := decompose(t.Args[1], v.Name); ok {
+			if c, ok := decompose(t.Args[1], v.Name); ok && t.Args[0].Closed() {
 				triggered = true
-				for _, gi := range g.idx[v.Sort.Name] {
-					if c == nil {
-						add(gi)
-					} else {
-						add(BVSub(gi, c))
+				for _, b := range g.basesOf(t.Args[0]) {
+					for _, gi := range g.idx[b] {
+						if gi.Sort != v.Sort {
+							continue
+						}
+						if c == nil {
+							add(gi)
+						} else {
+							add(BVSub(gi, c))
+						}
 					}
 				}
 			}
 		case "app":
 			for i, a := range t.Args {
-				if c, ok := decompose(a, v.Name); ok && a.Sort == v.Sort {
+				if a.Sort != v.Sort {
+					continue
+				}
+				if c, ok := decompose(a, v.Name); ok {
 					triggered = true
 					for _, ga := range g.args[t.Name][i] {
 						if c == nil {
@@ -343,19 +406,14 @@ func (in *Inst) candidates(q *Term, v *Term, g *ground) []*Term {
 		}
 	}
 	walk(q.Args[0])
-	for _, s := range g.all[v.Sort.Name] {
+	for _, s := range g.skolems[v.Sort.Name] {
 		add(s)
 	}
-	if !triggered {
-		for _, gi := range g.idx[v.Sort.Name] {
-			add(gi)
-		}
-	}
+	_ = triggered
 	return out
 }
 
 func (in *Inst) instances(q *Term, g *ground, done map[string]bool) []*Term {
-	// cartesian product over bound variables, capped
 	cands := make([][]*Term, len(q.Bound))
 	total := 1
 	for i, v := range q.Bound {
@@ -364,9 +422,6 @@ func (in *Inst) instances(q *Term, g *ground, done map[string]bool) []*Term {
 			return nil
 		}
 		total *= len(cands[i])
-		if total > in.MaxPerQ*4 {
-			break
-		}
 	}
 	var out []*Term
 	idx := make([]int, len(q.Bound))
@@ -377,7 +432,7 @@ func (in *Inst) instances(q *Term, g *ground, done map[string]bool) []*Term {
 		key := qid
 		for i, v := range q.Bound {
 			m[v.Name] = cands[i][idx[i]]
-			key += "|" + cands[i][idx[i]].String()
+			key += fmt.Sprintf("|%d", cands[i][idx[i]].id)
 		}
 		if !done[key] {
 			done[key] = true
@@ -391,7 +446,6 @@ func (in *Inst) instances(q *Term, g *ground, done map[string]bool) []*Term {
 				break
 			}
 		}
-		// next tuple
 		k := len(idx) - 1
 		for k >= 0 {
 			idx[k]++
@@ -426,9 +480,4 @@ func dropQuant(t *Term) *Term {
 		return Or(as...)
 	}
 	return True
-}
-
-func sortedTerms(ts []*Term) []*Term {
-	sort.Slice(ts, func(i, j int) bool { return ts[i].String() < ts[j].String() })
-	return ts
 }
